@@ -15,3 +15,44 @@ static_assert(!noexcept(spawn_detached(just(), std::declval<v2::async_scope&>(),
               "W-NOEXCEPT spawn_detached(just(), scope, allocator) allocates the operation state and must not be noexcept");
 static_assert(!noexcept(spawn_detached(just_done(), std::declval<v2::async_scope&>())),
               "W-NOEXCEPT spawn_detached(just_done(), scope) allocates with the default allocator and must not be noexcept");
+
+// ---- connect() of an adaptor is not noexcept when moving the consumer's receiver into the operation state can throw.
+// This must hold in every build configuration: the debug build routes connect through the async-stack injection
+// wrapper (_inject::make_op_wrapper), the release build does not, and both must give the same answer.
+#include <unifex/then.hpp>
+#include <unifex/sender_concepts.hpp>
+#include <unifex/bulk_transform.hpp>
+#include <unifex/execution_policy.hpp>
+#include <exception>
+#include <tuple>
+namespace vp {
+struct flaky_receiver {
+  flaky_receiver() = default;
+  flaky_receiver(flaky_receiver&&) noexcept(false) {}
+  flaky_receiver(const flaky_receiver&) noexcept(false) {}
+  template <typename... V> void set_value(V&&...) && noexcept {}
+  template <typename E> void set_error(E&&) && noexcept {}
+  void set_done() && noexcept {}
+};
+struct solid_receiver {
+  template <typename... V> void set_value(V&&...) && noexcept {}
+  template <typename E> void set_error(E&&) && noexcept {}
+  void set_done() && noexcept {}
+  void set_next(int) noexcept {}
+};
+inline auto then_sender() { return unifex::then(unifex::just(20), [](int x) noexcept { return x + 1; }); }
+static_assert(!unifex::is_nothrow_connectable_v<decltype(then_sender()), flaky_receiver>,
+              "W-NOEXCEPT connect(then(just(x), f), r) moves r into the operation state: it must not be noexcept when that move can throw (in every configuration)");
+// a bulk source whose connect throws: bulk_transform's connect must not claim noexcept (finding F15)
+struct throwing_bulk_source {
+  template <template <typename...> class V, template <typename...> class T> using value_types = V<T<>>;
+  template <template <typename...> class V> using error_types = V<std::exception_ptr>;
+  template <template <typename...> class V, template <typename...> class T> using next_types = V<T<int>>;
+  static constexpr bool sends_done = true;
+  struct op { void start() noexcept {} };
+  template <typename R> friend op tag_invoke(unifex::tag_t<unifex::connect>, throwing_bulk_source, R&&) noexcept(false);
+};
+inline auto bulk_sender() { return unifex::bulk_transform(throwing_bulk_source{}, [](int i) noexcept { return i; }, unifex::par); }
+static_assert(!unifex::is_nothrow_connectable_v<decltype(bulk_sender()), solid_receiver>,
+              "W-NOEXCEPT connect(bulk_transform(src, f, policy), r) connects src: it must not be noexcept when src's connect can throw");
+}  // namespace vp
